@@ -401,7 +401,7 @@ type ReferenceSystemCRS struct {
 func (crs *ReferenceSystemCRS) MarshalJSON() ([]byte, error) {
 	return json.Marshal(struct {
 		Description     string                 `json:"description,omitempty"`
-		ReferenceSystem map[string]interface{} `json:"wkt"`
+		ReferenceSystem map[string]interface{} `json:"referenceSystem"`
 	}{
 		Description:     crs.description,
 		ReferenceSystem: crs.referenceSystem,
